@@ -184,6 +184,19 @@ def first_step_diff(exe, cfg_a, script_a, cfg_b, script_b, tid, seed):
     names = ["parent", "action", "step_length", "particle", "edep"] + \
             [p + f for p in ("pre.", "post.") for f in
              ("time", "x", "y", "z", "dx", "dy", "dz", "volume", "energy")]
+    def parents(recs):
+        out = {}
+        for r in recs:
+            out.setdefault(int(r[0].split("/")[0]), r[1])
+        return out
+    pa, pb = parents(a), parents(b)
+    for t in sorted(set(pa) & set(pb)):
+        if pa[t] != pb[t]:
+            def show(x):
+                return "none" if x == "ffffffff" else str(int(x, 16))
+            return (f"track {t} has parent {show(pa[t])} in the reference run and parent "
+                    f"{show(pb[t])} here (secondary track/parent ids depend on the history or "
+                    "thread order)")
     for x, y in zip(a, b):
         if x != y:
             if x[0] != y[0]:
@@ -191,7 +204,9 @@ def first_step_diff(exe, cfg_a, script_a, cfg_b, script_b, tid, seed):
             for k, (u, v) in enumerate(zip(x[1:], y[1:])):
                 if u != v:
                     return f"track/step {x[0]} field {names[k]}: {u} vs {v}"
-    return f"stream lengths {len(a)} vs {len(b)}"
+    if len(a) != len(b):
+        return f"stream lengths {len(a)} vs {len(b)}"
+    return ""
 
 
 def run(ctx):
@@ -277,8 +292,8 @@ def run(ctx):
             slots = ctx.rng.choice([8, 13, 16, 32])
             prims = ctx.rng.range(max(4, slots // 2), slots + 4)
         elif prob == "mockfield":
-            slots = ctx.rng.choice([2, 3, 4, 6, 8])
-            prims = ctx.rng.range(slots + 1, 3 * slots + 2)      # more primaries than slots: re-use
+            slots = ctx.rng.choice([3, 4, 6, 8])
+            prims = ctx.rng.range(2 * slots, 3 * slots + 2)      # more primaries than slots: re-use
         else:
             slots = ctx.rng.choice([1, 2, 3, 5, 8, 13, 32])
             prims = ctx.rng.range(1, 24)
@@ -350,6 +365,13 @@ def run(ctx):
                 detail = first_step_diff(exe, r[1], r[2], cfg, script, tid, seed)
             except Exception as e:       # noqa: BLE001
                 detail = "dump comparison failed: %r" % (e,)
+            if not detail:
+                # identical step streams: name the summary entries that differ (StepperResult
+                # sequence, diagnostics, looping-counter high-water mark, ...)
+                ka = dict(w.split("=", 1) for w in r[0].split() if "=" in w)
+                kb = dict(w.split("=", 1) for w in got.split() if "=" in w)
+                detail = "step streams equal; differing: " + ", ".join(
+                    f"{k} {ka.get(k)} vs {kb.get(k)}" for k in kb if ka.get(k) != kb.get(k))
         ctx.violation("event-not-reproducible:" + cls,
                       f"event {tid} (primaries seed {seed}, {slots} slots, {prob}) gives a different "
                       f"result under `{cfg}` after history {script[:-1]}: {detail or got}",
